@@ -121,7 +121,7 @@ func runOne(s script, profile string, seed uint64, w *traceWriter) bool {
 			} else {
 				r.playRandom(vc.NewRng(seed).Fork(uint64(s.idx)+1), profile)
 			}
-			if r.status == "ok" {
+			if r.status == "ok" && !r.aborted {
 				r.slog("finish")
 				r.settleAndProbe()
 			}
@@ -219,6 +219,16 @@ func (r *run) playScript(lines []string) {
 			}
 			r.slog(l)
 			r.doStep(a)
+		case "early":
+			if r.earlyOwner() == nil {
+				r.status = fmt.Sprintf("notenabled:%d:%s", n, strings.ReplaceAll(l, " ", "_"))
+				return
+			}
+			r.slog(l)
+			r.doEarly()
+			if r.aborted {
+				return
+			}
 		case "srv":
 			sid, _ := strconv.ParseInt(tok[1], 10, 64)
 			seq, _ := strconv.Atoi(tok[2])
@@ -243,6 +253,9 @@ func (r *run) playScript(lines []string) {
 			r.slog(l)
 			r.doDrain()
 		case "finish":
+			if r.aborted {
+				return
+			}
 			r.slog(l)
 			r.settleAndProbe()
 		case "probe":
